@@ -357,7 +357,7 @@ def gen_cli(rng, thorough=False, scale=1):
         rng, ploidy=k, n_contigs=2 if rng.random() < 0.25 and not big else 1, n_variants=nvar,
         cov_per_hap=(3, 6) if big else (3, 9), read_len=(50, 220), multi_prob=rng.choice([0.0, 0.2, 0.4]),
         indel_prob=rng.choice([0.0, 0.0, 0.15]), hom_prob=rng.choice([0.1, 0.25]), uneven=True, samples=samples,
-        gaps=rng.random() < 0.5)
+        gaps=rng.random() < 0.5, orphans=rng.choice([0, 0, 0, 1, 2]))
     if rng.random() < 0.4:
         # a later chromosome on which nobody can be phased (no reads) but which has records at the SAME positions
         # as an earlier, phased chromosome: per-chromosome state must not leak into it
